@@ -397,8 +397,11 @@ func checkTAExclusive(e *executor, r *stepResult) *vfkit.Violation {
 		if x := cpus.Intersect(reserved); !x.Empty() {
 			if !e.reservedClass(c) {
 				sig := staleSig("reserved-cpus-to-ordinary-container")
-				if c.AllocCfg != e.cfg && e.withCfg(c.AllocCfg, func() bool { return e.reservedClass(c) }) {
-					sig = "reserved-grant-reinstated-verbatim-after-reconfigure-dropped-the-reserved-class"
+				// reserved-class under an earlier configuration it was (re-)allocated under?
+				for _, old := range append([]*vhConfig{c.AllocCfg}, c.LaterCfgs...) {
+					if old != nil && old != e.cfg && e.withCfg(old, func() bool { return e.reservedClass(c) }) {
+						sig = "reserved-grant-reinstated-verbatim-after-reconfigure-dropped-the-reserved-class"
+					}
 				}
 				return viol(P, "reserved CPUs only for reserved-class containers", sig,
 					"after %s: %s (ns %s) pinned to %s which contains reserved CPUs %s", r.Desc, c.ID, e.m.pods[c.Pod].Spec.Namespace, cpus, x)
